@@ -427,3 +427,31 @@ def r15(ctx, R):
     R.fn(w)
     vals = [ast.unparse(v) for d in ast.walk(fn) if isinstance(d, ast.Dict) for k, v in zip(d.keys, d.values) if isinstance(k, ast.Constant) and k.value == 'spread_from_first_restarted']
     R.check(vals == ['not self.params.restart_from_first_step'], "BasicRestarting.dependencies :: 'spread_from_first_restarted' = not restart_from_first_step", w, 'not self.params.restart_from_first_step', vals)
+
+
+@rule('C09', 'C09.R16', 'accepted means estimate below tolerance (converged-collocation adaptivity): at convergence the step restarts because of the ERROR ESTIMATE whenever it does not restart because of non-convergence - the error test `estimate > e_tol` sits in the else-arm of exactly the test `restart_at_maxiter and residual > restol and not e_tol_converged`, so switching restart_at_maxiter off never switches the error test off', floor=1)
+def r16(ctx, R):
+    repo = ctx.repo
+    rel = CC + 'adaptivity.py'
+    fn = repo.func(rel, 'AdaptivityForConvergedCollocationProblems.determine_restart')
+    w = f'{rel}:AdaptivityForConvergedCollocationProblems.determine_restart'
+    R.fn(w)
+    cfg = FuncCFG(fn)
+    err = [(n, s) for n, s in cfg.stmt_of.items() if isinstance(s, ast.Assign) and ast.unparse(s.targets[0]) == 'S.status.restart' and ast.unparse(s.value) == 'True' and any('get_local_error_estimate' in ast.unparse(t) and pol for t, pol in cfg.guards.get(id(s), ()))]
+    ok = len(err) == 1
+    found = []
+    if ok:
+        gs = cfg.guards[id(err[0][1])]
+        neg = [ast.unparse(t) for t, pol in gs if not pol]
+        found = neg
+        # the only NEGATED guard between get_convergence and the error test is the complete non-convergence test
+        cands = [g for g in neg if 'restol' in g or 'restart_at_maxiter' in g or 'e_tol_converged' in g]
+        from ..norm import guards_nnf
+        ok = len(cands) == 1
+        if ok:
+            nf = guards_nnf([cands[0]])
+            atoms = set(nf[1]) if isinstance(nf, tuple) and nf[0] == 'and' else {nf}
+            ok = 'self.params.restart_at_maxiter' in atoms and any(isinstance(a, str) and 'restol' in a for a in atoms) and ('not', 'e_tol_converged') in atoms and len(atoms) == 3
+        pos = [ast.unparse(t) for t, pol in gs if pol]
+        ok = ok and any('get_convergence' in g for g in pos) and len([g for g in pos if 'get_local_error_estimate' in g]) == 1 and len(pos) == 2
+    R.check(ok, 'AdaptivityForConvergedCollocationProblems.determine_restart :: the error-estimate restart is the else-arm of the complete non-convergence test', w, 'if converged: if restart_at_maxiter and residual > restol and not e_tol_converged: .. elif estimate > e_tol: restart = True', found)
